@@ -98,7 +98,7 @@ claim('C11',
       '(immediately and after settling).',
       WORLD_NOTE + 'One listed known finding (`set` applies options one by one). The solver acts as an enumerator here: all inputs are selectors.')
 claim('C12',
-      'Bounded symbolic execution of reloadconfig sequences (K<=3 edits from an 18-edit menu incl. reverts, multi-watcher edits, an invalid definition after which '
+      'Bounded symbolic execution of reloadconfig sequences (K<=3 edits from a 19-edit menu incl. reverts, multi-watcher edits, a watcher scaled to 0 and back, an invalid definition after which '
       'the history continues with convergence alone claimed, and env values that '
       'parse_env_dict rewrites) on a real ini file: after every reload the daemon equals what get_config + Watcher.load_from_config yield for the file, '
       'unchanged watchers keep their pids, numprocesses-only edits keep the surviving workers, an unchanged file causes no kernel activity, removed watchers leave nothing. '
@@ -140,9 +140,9 @@ claim('C07',
 claim('C08',
       'Daemon-side half only. Bounded symbolic execution of the REAL circusd.main() (argument parsing, pid file, Arbiter.load_from_config, the '
       'blocking loop.start() on the virtual-time loop, finally-block) with real managed sockets and pid file: trigger {quit, quit waiting, SIGTERM, '
-      'SIGINT, SIGQUIT} delivered 1-3 times at any kernel call or right after a request (incr, restart, reload, kill, reloadconfig adding a socket / replacing a watcher, '
+      'SIGINT, SIGQUIT} delivered 1-3 times at any kernel call or right after a request (incr, restart, reload, kill, reloadconfig adding a socket / replacing a watcher / moving a managed unix socket to another path, '
       'a connection for an on_demand watcher, the death of one of its workers) or INSIDE select() of an idle daemon (also without periodic check), obedient / stubborn workers: '
-      'exit 0, no child left, zmq and managed sockets closed, unix socket file and pid file gone, bounded time. Pid-file protocol over structured '
+      'exit 0, no child left, zmq and managed sockets closed (also those bound before a reloadconfig), unix socket files and pid file gone, bounded time. Pid-file protocol over structured '
       'contents (also non-UTF-8 bytes) x liveness {own, live, dead, EPERM}.',
       WORLD_NOTE + 'Signals are delivered by calling the real handler; real signal delivery, the exit status seen by a parent and daemonize() are '
       'outside. One listed known finding (signal dropped while an operation is in flight).')
